@@ -9,7 +9,8 @@ def run(chk):
                 'the rm pattern and is older than DAYS, optionally an orphan); the projection of .Trash/$uid must stay '
                 'as the specification says (untouched when insecure), trash-list must report the skipped directory; '
                 'all generated cases are executed; stage trash-dirs-report: trash-list --trash-dirs names the directories in use and the '
-                'refused ones with the reason, --volumes the mounted volumes; stage mid-run-change: one trash-put with two arguments of one volume, run in lock-step, '
+                'refused ones with the reason, --volumes the mounted volumes; stage all-users: the trash directories of a second user of the '
+                'password database beside one\'s own, on every state of $topdir/.Trash: list / --trash-dirs / empty with and without --all-users, rm, restore, put; stage mid-run-change: one trash-put with two arguments of one volume, run in lock-step, '
                 '.Trash made insecure (sticky bit removed / replaced by a symlink) between the two: both halves are judged by TLC '
                 '(TrashTrace) against PutApply under the state of their own time; non-trivial = state changed or command had to fail')
     chk.assumptions += common.ASSUME
@@ -17,6 +18,9 @@ def run(chk):
     common.gen_tt(chk, 'insecure', 'Init_Insecure', 'Next_Insecure', 10, None, thorough_seeds=4)
     # what the reading commands would use and what they refuse, as trash-list --trash-dirs reports it (and --volumes)
     common.gen_tt(chk, 'trash-dirs-report', 'Init_Insecure', 'Next_ListDirs', 10, None, thorough_seeds=3)
+    # two users: what --all-users lists, reports and purges on every state of $topdir/.Trash (.Trash/$uid of BOTH users is
+    # judged by the state of .Trash), and what every command without --all-users leaves alone
+    common.gen_tt(chk, 'all-users', 'Init_AllUsers', 'Next_AllUsers', 15, None, thorough_seeds=2)
     midrun_stage(chk)
     chk.exhaustive = True
 
